@@ -75,7 +75,7 @@ theorem order_rotateOurKeys : Facts.order_keyManagementContext_rotateOurKeys = [
 theorem order_rotateTheirKey : Facts.order_keyManagementContext_rotateTheirKey = ["revealMACKeysForTheirPreviousKeyID", "forgetCountersForTheirKey"] := by decide
 theorem order_deriveDHSessionKeys : Facts.order_keyManagementContext_deriveDHSessionKeys = ["pickOurKeys", "pickTheirKey", "newOtrConflictError", "calculateDHSessionKeys"] := by decide
 theorem order_End : Facts.order_Conversation_End = ["wipe", "createSerializedDataMessage", "wipe", "forget", "signalSecurityEventIf", "wipe", "wipe", "wipeBigInt"] := by decide
-theorem order_processDisconnectedTLV : Facts.order_Conversation_processDisconnectedTLV = ["signalSecurityEventIf", "wipe", "wipe", "wipe"] := by decide
+theorem order_processDisconnectedTLV : Facts.order_Conversation_processDisconnectedTLV = ["signalSecurityEventIf", "wipe", "wipe", "macKeysToReveal", "wipe"] := by decide
 theorem order_receiveUnit : Facts.order_Conversation_receiveUnit = ["makeCopy", "wipeBytes", "isOTREnabled", "receiveWithoutOTR", "guessMessageType", "withInjectionsPlain", "receiveErrorMessage", "receiveQueryMessage", "receiveTaggedPlaintext", "receivePlaintext", "receiveFragment", "fragmentsFinished", "forgetFragment", "withInjectionsPlain", "receiveUnit", "messageEvent", "receiveEncoded", "encodedMessage", "forgetFragment", "withInjectionsPlain", "toSendEncoded"] := by decide
 
 /-! who writes the fields the lifecycle / isolation properties are about -/
